@@ -261,6 +261,18 @@ func encodeGuard(f func() ([]byte, error)) (b []byte, err error, panicked bool) 
 func genJSON(c *hx.Ctx) {
 	r := decorrelate(c)
 	g := cval.NewGen(r, jsonProfile(c))
+	// boundary probes: every scalar type name with every boundary / odd number string
+	for _, ty := range jsonTypeNames {
+		switch ty {
+		case "Array", "Dictionary", "Struct", "Resource", "Attachment", "Event", "Contract", "Path", "Type", "Capability",
+			"Enum", "Function", "InclusiveRange", "Optional", "Void":
+			continue
+		}
+		for _, s := range numberStrings {
+			b, _ := gojson.Marshal(map[string]any{"type": ty, "value": s})
+			c.Emit("json", "dec", string(b))
+		}
+	}
 	for i := 0; i < c.N; i++ {
 		v := g.Top()
 		sx := cval.ValueSx(v)
